@@ -84,32 +84,32 @@ type Obligation struct {
 // VC accumulates one SMT context (declarations + assertions in order) for one function under
 // verification; each obligation is a prefix of that context plus a negated goal.
 type VC struct {
-	prog        *Program
-	fnName      string
-	declared    map[string]bool
-	compSorts   map[string]string
-	nonNil      map[string]bool
-	compTypes   map[string]types.Type
-	knownTag    map[string]int
-	boxedLocals []boxed
-	regions     map[string]string
-	arrayLits   map[string][]string
-	fresh_    map[string]bool
-	closureBinds map[string][]Val // closure terms -> the values bound at MakeClosure
-	fnOfTerm  map[string]*ssa.Function // terms known to denote a specific function / closure
-	deferred    []string
-	asserts     []string
-	obligs      []*Obligation
-	counter     int
-	notes       []string // inlined functions, assumed contracts, havocked calls...
-	inlined     map[string]bool
-	assumed     map[string]bool
-	havocked    map[string]bool
-	props       []string
-	structs     map[string]bool
-	litCache    map[string]string
-	tags        map[string]int
-	fnIDs       map[*ssa.Function]int
+	prog         *Program
+	fnName       string
+	declared     map[string]bool
+	compSorts    map[string]string
+	nonNil       map[string]bool
+	compTypes    map[string]types.Type
+	knownTag     map[string]int
+	boxedLocals  []boxed
+	regions      map[string]string
+	arrayLits    map[string][]string
+	fresh_       map[string]bool
+	closureBinds map[string][]Val         // closure terms -> the values bound at MakeClosure
+	fnOfTerm     map[string]*ssa.Function // terms known to denote a specific function / closure
+	deferred     []string
+	asserts      []string
+	obligs       []*Obligation
+	counter      int
+	notes        []string // inlined functions, assumed contracts, havocked calls...
+	inlined      map[string]bool
+	assumed      map[string]bool
+	havocked     map[string]bool
+	props        []string
+	structs      map[string]bool
+	litCache     map[string]string
+	tags         map[string]int
+	fnIDs        map[*ssa.Function]int
 }
 
 func newVC(p *Program, name string) *VC {
@@ -437,6 +437,7 @@ type Val struct {
 	Typ   types.Type
 	Sort  string // for spec-only values without a Go type
 	Fn    *ssa.Function
+	Content string // spec values produced by old(...) / prev(...) of slice type: the backing array's content in THAT state
 	Lit   []string // slice over a fresh array literal: its element terms (variadic arguments)
 }
 
